@@ -337,9 +337,19 @@ OPEN — carried by K/O only (observed by harness/src/bin/c17.rs, not proved):
   by K/O only: that these models compute what the real code computes (K streams of C03/C04/C05 for the checkers,
   C09/C10 for the schema declaration file, C01/C02 for the operation types — other properties' harnesses), and the
   consequence on the real CLI (verdict and per-alias denotation invariant under shuffling definitions inside and
-  across files, and renaming files: O stream of harness/src/bin/c17.rs). Not modelled, hence not proved: the
-  server schema file under permutation (observed), `additional_info` of diagnostics and the rendered message text
-  (the models carry kind + main position).
+  across files, and renaming files: O stream of harness/src/bin/c17.rs).
+* (moved to theorems — `Props/C17Server.lean`) the server schema file under permutation: the `serverGraphqlOutput` module
+  (C16's model: `remove_builtins`, the model plugin's strip, `print_graphql` into `JsStringWriter`, the wrapper) is the
+  wrapper around the CONCATENATION of per-definition blocks, each block being what the printer writes for that definition
+  alone (`C17_server_doc_is_blocks`, `C17_server_module_is_blocks`); for every permutation of the definitions the blocks
+  are permuted the same way and are byte for byte the same (`C17_server_schema_perm`, no side condition), the text does
+  depend on the order (`C17_server_schema_order_leaks_into_text`); composed with C11 from the raw source items
+  (`C17_server_schema_from_sources`) and with C16's round trip (`C17_server_schema_parse_perm`, `_pipeline`: both
+  orders evaluate, lex and parse to the same document up to the order of definitions). Still carried by K/O only: that
+  the model is the code (K of C16, byte for byte), and the line-multiset comparison of the real files under permutation
+  (O here).
+* Not modelled, hence not proved: `additional_info` of diagnostics and the rendered message text (the models carry kind +
+  main position).
 * the site list is complete only as far as the syntactic scan sees (name-based; documented in translate/hash_sites.py).
 -/
 
